@@ -30,6 +30,17 @@ class StringScanner(TokenScanner):
         self.line_number = 0
 
 
+def source_arg(text):
+    """what the harness hands to Parser.parse: the text itself (so that Parser.parse and TokenScanner's own
+    string branch run), unless the text happens to name an existing file system entry (known finding K1)"""
+    import os
+    try:
+        exists = os.path.exists(text)
+    except Exception:  # noqa
+        exists = False
+    return StringScanner(text) if exists else text
+
+
 class CountingIdGen:
     """duck-typed id generator owned by the harness (the documented interface is get_next_id)"""
 
@@ -87,7 +98,7 @@ def parse_with(parser, matcher, idgen, stop, src):
     parser.stop_at_first_error = stop
     matcher.calls = 0
     try:
-        doc = parser.parse(StringScanner(src), matcher)
+        doc = parser.parse(source_arg(src), matcher)
         out = {"ok": doc}
     except CompositeParserException as e:
         out = {"errors": [err_json(x) for x in e.errors]}
@@ -147,7 +158,7 @@ def events(ps, pa, pp, srcs):
     ge = GherkinEvents(GherkinEvents.Options(print_source=ps, print_ast=pa, print_pickles=pp))
     # keep K1 out of the comparison: the stream API hands the text to Parser.parse(str)
     orig = ge.parser.parse
-    ge.parser.parse = lambda s, m=None: orig(StringScanner(s), m)
+    ge.parser.parse = lambda s, m=None: orig(source_arg(s), m)
     out = []
     try:
         for uri, data in srcs:
@@ -165,7 +176,7 @@ def tokens(dialect, src):
         return {"nosuchlanguage": None}
     p = Parser(TokenFormatterBuilder())
     try:
-        return {"ok": p.parse(StringScanner(src), m)}
+        return {"ok": p.parse(source_arg(src), m)}
     except CompositeParserException as e:
         return {"errors": [err_json(x) for x in e.errors]}
     except ParserException as e:
